@@ -1,25 +1,423 @@
-//! TLS layer of the simulated client (stub; filled in for C18)
-use crate::plan::TlsClient;
-use crate::stream::World;
-use std::io;
+//! Deterministic TLS: a rustls CryptoProvider whose randomness and X25519 key shares come from a
+//! seeded thread-local stream, fixed Ed25519 certificates, clock-free certificate verifiers, and
+//! the client side of the upgrade (a real rustls ClientConnection driven in memory, so the
+//! simulator still decides every chunk boundary of the TLS byte stream).
 
-pub struct TlsSide {
-    pub outer: Vec<u8>,
+use crate::plan::TlsClient;
+use crate::rng::Rng;
+use crate::stream::{Ev, World};
+use crate::tlsfix;
+use rustls::client::danger::{HandshakeSignatureValid, ServerCertVerified, ServerCertVerifier};
+use rustls::crypto::{
+    ActiveKeyExchange, CryptoProvider, GetRandomFailed, SecureRandom, SharedSecret, SupportedKxGroup,
+};
+use rustls::pki_types::{CertificateDer, PrivateKeyDer, PrivatePkcs8KeyDer, ServerName, UnixTime};
+use rustls::server::danger::{ClientCertVerified, ClientCertVerifier};
+use rustls::{DigitallySignedStruct, DistinguishedName, NamedGroup, SignatureScheme};
+use std::cell::RefCell;
+use std::io::{self, Read, Write};
+use std::sync::Arc;
+
+thread_local! {
+    static TLS_RNG: RefCell<Rng> = RefCell::new(Rng::new(0));
+    static CFG_CACHE: RefCell<Vec<(u8, Arc<rustls::ServerConfig>)>> = const { RefCell::new(Vec::new()) };
+    static CCFG_CACHE: RefCell<Vec<(u8, Arc<rustls::ClientConfig>)>> = const { RefCell::new(Vec::new()) };
 }
 
-impl TlsSide {
-    pub fn new(_t: &TlsClient, outer: Vec<u8>) -> TlsSide {
-        TlsSide { outer }
+pub fn seed_thread_rng(seed: u64) {
+    TLS_RNG.with(|r| *r.borrow_mut() = Rng::new(seed ^ 0x7157_7157_7157_7157));
+}
+
+fn fill_seeded(buf: &mut [u8]) {
+    TLS_RNG.with(|r| {
+        let mut r = r.borrow_mut();
+        let b = r.bytes(buf.len());
+        buf.copy_from_slice(&b);
+    });
+}
+
+#[derive(Debug)]
+struct SeededRandom;
+
+impl SecureRandom for SeededRandom {
+    fn fill(&self, buf: &mut [u8]) -> Result<(), GetRandomFailed> {
+        fill_seeded(buf);
+        Ok(())
     }
 }
 
-pub fn read_tls(_w: &mut World, _op: u64, _ridx: u64, _buf: &mut [u8]) -> io::Result<usize> {
-    Ok(0)
+#[derive(Debug)]
+struct SeededX25519;
+
+struct SeededKx {
+    priv_key: ring::agreement::EphemeralPrivateKey,
+    pub_key: Vec<u8>,
 }
 
-pub fn server_config(_require_cert: bool) -> std::sync::Arc<rustls::ServerConfig> {
-    unimplemented!()
+impl SupportedKxGroup for SeededX25519 {
+    fn start(&self) -> Result<Box<dyn ActiveKeyExchange>, rustls::Error> {
+        let mut seed = [0u8; 32];
+        fill_seeded(&mut seed);
+        let rng = ring::test::rand::FixedSliceRandom { bytes: &seed };
+        let priv_key = ring::agreement::EphemeralPrivateKey::generate(&ring::agreement::X25519, &rng)
+            .map_err(|_| rustls::Error::General("x25519 keygen".into()))?;
+        let pub_key = priv_key
+            .compute_public_key()
+            .map_err(|_| rustls::Error::General("x25519 pubkey".into()))?
+            .as_ref()
+            .to_vec();
+        Ok(Box::new(SeededKx { priv_key, pub_key }))
+    }
+    fn name(&self) -> NamedGroup {
+        NamedGroup::X25519
+    }
 }
 
-pub fn seed_thread_rng(_seed: u64) {}
-pub fn finish(_w: &mut World) {}
+impl ActiveKeyExchange for SeededKx {
+    fn complete(self: Box<Self>, peer: &[u8]) -> Result<SharedSecret, rustls::Error> {
+        let peer = ring::agreement::UnparsedPublicKey::new(&ring::agreement::X25519, peer);
+        ring::agreement::agree_ephemeral(self.priv_key, &peer, |secret| SharedSecret::from(secret))
+            .map_err(|_| rustls::Error::General("x25519 agree".into()))
+    }
+    fn pub_key(&self) -> &[u8] {
+        &self.pub_key
+    }
+    fn group(&self) -> NamedGroup {
+        NamedGroup::X25519
+    }
+}
+
+static SEEDED_RANDOM: SeededRandom = SeededRandom;
+static SEEDED_X25519: SeededX25519 = SeededX25519;
+
+fn provider() -> Arc<CryptoProvider> {
+    let base = rustls::crypto::ring::default_provider();
+    Arc::new(CryptoProvider {
+        cipher_suites: base.cipher_suites,
+        kx_groups: vec![&SEEDED_X25519],
+        signature_verification_algorithms: base.signature_verification_algorithms,
+        secure_random: &SEEDED_RANDOM,
+        key_provider: base.key_provider,
+    })
+}
+
+/// Accepts exactly the fixture certificate, verifies handshake signatures, never reads a clock.
+#[derive(Debug)]
+struct FixtureVerifier {
+    cert: Vec<u8>,
+    algs: rustls::crypto::WebPkiSupportedAlgorithms,
+}
+
+impl ServerCertVerifier for FixtureVerifier {
+    fn verify_server_cert(
+        &self,
+        end_entity: &CertificateDer<'_>,
+        _intermediates: &[CertificateDer<'_>],
+        _server_name: &ServerName<'_>,
+        _ocsp: &[u8],
+        _now: UnixTime,
+    ) -> Result<ServerCertVerified, rustls::Error> {
+        if end_entity.as_ref() == &self.cert[..] {
+            Ok(ServerCertVerified::assertion())
+        } else {
+            Err(rustls::Error::General("unexpected server certificate".into()))
+        }
+    }
+    fn verify_tls12_signature(
+        &self,
+        message: &[u8],
+        cert: &CertificateDer<'_>,
+        dss: &DigitallySignedStruct,
+    ) -> Result<HandshakeSignatureValid, rustls::Error> {
+        rustls::crypto::verify_tls12_signature(message, cert, dss, &self.algs)
+    }
+    fn verify_tls13_signature(
+        &self,
+        message: &[u8],
+        cert: &CertificateDer<'_>,
+        dss: &DigitallySignedStruct,
+    ) -> Result<HandshakeSignatureValid, rustls::Error> {
+        rustls::crypto::verify_tls13_signature(message, cert, dss, &self.algs)
+    }
+    fn supported_verify_schemes(&self) -> Vec<SignatureScheme> {
+        self.algs.supported_schemes()
+    }
+}
+
+impl ClientCertVerifier for FixtureVerifier {
+    fn offer_client_auth(&self) -> bool {
+        true
+    }
+    fn client_auth_mandatory(&self) -> bool {
+        false
+    }
+    fn root_hint_subjects(&self) -> &[DistinguishedName] {
+        &[]
+    }
+    fn verify_client_cert(
+        &self,
+        end_entity: &CertificateDer<'_>,
+        _intermediates: &[CertificateDer<'_>],
+        _now: UnixTime,
+    ) -> Result<ClientCertVerified, rustls::Error> {
+        if end_entity.as_ref() == &self.cert[..] {
+            Ok(ClientCertVerified::assertion())
+        } else {
+            Err(rustls::Error::General("unexpected client certificate".into()))
+        }
+    }
+    fn verify_tls12_signature(
+        &self,
+        message: &[u8],
+        cert: &CertificateDer<'_>,
+        dss: &DigitallySignedStruct,
+    ) -> Result<HandshakeSignatureValid, rustls::Error> {
+        rustls::crypto::verify_tls12_signature(message, cert, dss, &self.algs)
+    }
+    fn verify_tls13_signature(
+        &self,
+        message: &[u8],
+        cert: &CertificateDer<'_>,
+        dss: &DigitallySignedStruct,
+    ) -> Result<HandshakeSignatureValid, rustls::Error> {
+        rustls::crypto::verify_tls13_signature(message, cert, dss, &self.algs)
+    }
+    fn supported_verify_schemes(&self) -> Vec<SignatureScheme> {
+        self.algs.supported_schemes()
+    }
+}
+
+pub fn server_config(require_cert: bool) -> Arc<rustls::ServerConfig> {
+    let key = require_cert as u8;
+    if let Some(c) = CFG_CACHE.with(|c| c.borrow().iter().find(|e| e.0 == key).map(|e| e.1.clone())) {
+        return c;
+    }
+    let prov = provider();
+    let algs = prov.signature_verification_algorithms;
+    let b = rustls::ServerConfig::builder_with_provider(prov)
+        .with_safe_default_protocol_versions()
+        .expect("harness: protocol versions");
+    let b = if require_cert {
+        b.with_client_cert_verifier(Arc::new(FixtureVerifier {
+            cert: tlsfix::client_cert().to_vec(),
+            algs,
+        }))
+    } else {
+        b.with_no_client_auth()
+    };
+    let mut cfg = b
+        .with_single_cert(
+            vec![CertificateDer::from(tlsfix::server_cert().to_vec())],
+            PrivateKeyDer::Pkcs8(PrivatePkcs8KeyDer::from(tlsfix::server_key().to_vec())),
+        )
+        .expect("harness: server certificate");
+    // no cross-connection state, no tickets: one run must not influence the next
+    cfg.session_storage = Arc::new(rustls::server::NoServerSessionStorage {});
+    cfg.send_tls13_tickets = 0;
+    let cfg = Arc::new(cfg);
+    CFG_CACHE.with(|c| c.borrow_mut().push((key, cfg.clone())));
+    cfg
+}
+
+fn client_config(t: &TlsClient) -> Arc<rustls::ClientConfig> {
+    let key = (t.cert as u8) | (t.v13 as u8) << 1;
+    if let Some(c) = CCFG_CACHE.with(|c| c.borrow().iter().find(|e| e.0 == key).map(|e| e.1.clone())) {
+        return c;
+    }
+    let prov = provider();
+    let algs = prov.signature_verification_algorithms;
+    let versions: &[&rustls::SupportedProtocolVersion] = if t.v13 {
+        &[&rustls::version::TLS13]
+    } else {
+        &[&rustls::version::TLS12]
+    };
+    let b = rustls::ClientConfig::builder_with_provider(prov)
+        .with_protocol_versions(versions)
+        .expect("harness: client protocol versions")
+        .dangerous()
+        .with_custom_certificate_verifier(Arc::new(FixtureVerifier {
+            cert: tlsfix::server_cert().to_vec(),
+            algs,
+        }));
+    let mut cfg = if t.cert {
+        b.with_client_auth_cert(
+            vec![CertificateDer::from(tlsfix::client_cert().to_vec())],
+            PrivateKeyDer::Pkcs8(PrivatePkcs8KeyDer::from(tlsfix::client_key().to_vec())),
+        )
+        .expect("harness: client certificate")
+    } else {
+        b.with_no_client_auth()
+    };
+    cfg.resumption = rustls::client::Resumption::disabled();
+    let cfg = Arc::new(cfg);
+    CCFG_CACHE.with(|c| c.borrow_mut().push((key, cfg.clone())));
+    cfg
+}
+
+pub struct TlsSide {
+    conn: rustls::ClientConnection,
+    /// outer client stream produced so far: SSLRequest packet, then TLS records
+    pub out: Vec<u8>,
+    pub out_delivered: usize,
+    /// bytes of the server's wire output already shown to the client
+    fed: usize,
+    /// length of the plaintext greeting packet at the start of the server's wire output
+    greet_len: Option<usize>,
+    /// plaintext client bytes already handed to the TLS client
+    inner_written: usize,
+    pub error: Option<String>,
+    pub ssl_req_len: usize,
+    pub client_hello_len: usize,
+    pub handshake_done: bool,
+    closed: bool,
+}
+
+impl TlsSide {
+    pub fn new(t: &TlsClient, outer: Vec<u8>) -> TlsSide {
+        let conn = rustls::ClientConnection::new(
+            client_config(t),
+            ServerName::try_from("localhost").expect("harness: server name"),
+        )
+        .expect("harness: client connection");
+        let mut conn = conn;
+        // the scripted client hands over whole commands; never drop plaintext
+        conn.set_buffer_limit(None);
+        let ssl_req_len = outer.len();
+        let mut s = TlsSide {
+            conn,
+            out: outer,
+            out_delivered: 0,
+            fed: 0,
+            greet_len: None,
+            inner_written: 0,
+            error: None,
+            ssl_req_len,
+            client_hello_len: 0,
+            handshake_done: false,
+            closed: false,
+        };
+        s.pump_out();
+        s.client_hello_len = s.out.len() - ssl_req_len;
+        s
+    }
+
+    fn pump_out(&mut self) {
+        while self.conn.wants_write() {
+            if self.conn.write_tls(&mut self.out).is_err() {
+                break;
+            }
+        }
+    }
+}
+
+/// Show the client what the server has flushed so far: plaintext greeting first, TLS afterwards.
+fn feed(w: &mut World) {
+    let Some(mut t) = w.tls.take() else { return };
+    let avail = w.wire_flushed;
+    if t.greet_len.is_none() && avail >= 4 {
+        let n = w.wire_s[0] as usize | (w.wire_s[1] as usize) << 8 | (w.wire_s[2] as usize) << 16;
+        if avail >= 4 + n {
+            t.greet_len = Some(4 + n);
+            w.sbytes.extend_from_slice(&w.wire_s[..4 + n]);
+            t.fed = 4 + n;
+        }
+    }
+    if t.greet_len.is_some() && t.fed < avail && t.error.is_none() {
+        let mut src: &[u8] = &w.wire_s[t.fed..avail];
+        while !src.is_empty() {
+            match t.conn.read_tls(&mut src) {
+                Ok(0) => break,
+                Ok(_) => {}
+                Err(e) => {
+                    t.error = Some(format!("read_tls: {}", e));
+                    break;
+                }
+            }
+            match t.conn.process_new_packets() {
+                Ok(_) => {}
+                Err(e) => {
+                    t.error = Some(format!("TLS client rejects the server's bytes: {}", e));
+                    break;
+                }
+            }
+            // decrypted application data = the server's plaintext protocol stream
+            let mut buf = [0u8; 16_384];
+            loop {
+                match t.conn.reader().read(&mut buf) {
+                    Ok(0) => break,
+                    Ok(n) => w.sbytes.extend_from_slice(&buf[..n]),
+                    Err(_) => break,
+                }
+            }
+        }
+        t.fed = avail;
+        if !t.conn.is_handshaking() {
+            t.handshake_done = true;
+        }
+    }
+    w.flushed = w.sbytes.len();
+    t.pump_out();
+    w.tls = Some(t);
+}
+
+pub fn read_tls(w: &mut World, op: u64, ridx: u64, buf: &mut [u8]) -> io::Result<usize> {
+    feed(w);
+    // the inner (plaintext) client model decides what the client wants to say next
+    let all_out_delivered = {
+        let t = w.tls.as_ref().unwrap();
+        t.out_delivered == t.out.len()
+    };
+    if all_out_delivered {
+        // everything handed to the TLS client so far has reached the server
+        w.delivered = w.tls.as_ref().unwrap().inner_written;
+        w.client_step_pub();
+        let (from, to) = (w.tls.as_ref().unwrap().inner_written, w.released);
+        if to > from {
+            let chunk = w.cbytes[from..to].to_vec();
+            let t = w.tls.as_mut().unwrap();
+            t.conn
+                .writer()
+                .write_all(&chunk)
+                .expect("harness: TLS client refused plaintext");
+            t.inner_written = to;
+            t.pump_out();
+        }
+    }
+    // script exhausted and everything delivered: an orderly client sends close_notify before
+    // closing the socket
+    {
+        let exhausted = w.released_units >= w.unit_ends.len() && w.released == w.cbytes.len();
+        let t = w.tls.as_mut().unwrap();
+        if exhausted && t.out_delivered == t.out.len() && t.inner_written == w.released && !t.closed {
+            t.closed = true;
+            t.conn.send_close_notify();
+            t.pump_out();
+        }
+    }
+    let t = w.tls.as_mut().unwrap();
+    let avail = t.out.len() - t.out_delivered;
+    if avail == 0 || buf.is_empty() {
+        w.ev_pub(Ev::ReadEof { op });
+        return Ok(0);
+    }
+    let d = t.out_delivered;
+    let mut n = buf.len().min(avail).min(w.sched_size_pub(ridx));
+    n = n.min(w.cut_limit_pub(d as u64));
+    let t = w.tls.as_mut().unwrap();
+    buf[..n].copy_from_slice(&t.out[d..d + n]);
+    t.out_delivered += n;
+    w.wire_delivered += n as u64;
+    w.ev_pub(Ev::Read {
+        op,
+        req: buf.len() as u32,
+        got: n as u32,
+        off: d as u64,
+    });
+    Ok(n)
+}
+
+pub fn finish(w: &mut World) {
+    if w.tls.is_some() {
+        feed(w);
+    }
+}
